@@ -52,23 +52,23 @@ func matchFinding(fs []Finding, v kernel.Violation) *Finding {
 
 // Agg aggregates the results of a check.
 type Agg struct {
-	Runs        int
-	Ops         int
-	Steps       int
-	SimWallUS   int64
-	Faults      map[string]int
-	Probes      map[string]int
-	Digests     map[string]bool
-	Sigs        map[string]bool
-	NonTrivial  map[string]bool // distinct digests of runs in which >= 1 fault fired
-	Violating   []*kernel.Result
-	Harness     []string
-	OtherProps  map[string]int
-	FreeRuns    int
-	EnumCases   int
-	EnumTotal   int
-	ByWorld     map[string]int
-	Variants    map[string]int
+	Runs       int
+	Ops        int
+	Steps      int
+	SimWallUS  int64
+	Faults     map[string]int
+	Probes     map[string]int
+	Digests    map[string]bool
+	Sigs       map[string]bool
+	NonTrivial map[string]bool // distinct digests of runs in which >= 1 fault fired
+	Violating  []*kernel.Result
+	Harness    []string
+	OtherProps map[string]int
+	FreeRuns   int
+	EnumCases  int
+	EnumTotal  int
+	ByWorld    map[string]int
+	Variants   map[string]int
 }
 
 func newAgg() *Agg {
